@@ -180,7 +180,7 @@ type absint struct {
 	globalNN   map[*ssa.Global]int
 	flMemo     map[flKey]*flRes
 	inFieldLen bool
-	depth    int
+	depth      int
 	active     map[ssa.Value]bool
 	wraps      map[*ssa.BinOp]ival   // arithmetic whose ℤ result does not fit its type
 	narrow     map[*ssa.Convert]ival // conversions that may lose value
